@@ -4895,6 +4895,11 @@ func (c *BytecodeCompiler) compileMethodCall(receiver ast.ExpressionNode, op *to
 		// so the frame cannot be replaced by a tail call
 		tailCall = false
 	}
+	if tailCall && c.additionalAbortChecks {
+		// a tail call replaces the current frame, so the check
+		// compiled in front of the return instruction is never reached
+		c.emit(location.StartPos.Line, bytecode.CHECK_ABORT)
+	}
 
 	switch op.Type {
 	case token.QUESTION_DOT:
